@@ -668,6 +668,21 @@ func runCaseInner(c Case, o *kit.Obs) *kit.Failure {
 		}
 		o.Metric("tampers_tried", 1)
 	}
+	// 6. plaintext footer: its signature (nonce + tag, 28 bytes) authenticates the metadata. A file whose
+	// signature was cut off (footer length adjusted) must not be accepted by a reader holding the keys:
+	// otherwise everything in the footer can be rewritten.
+	if !c.EncFooter && len(data) > 8+28 {
+		n := int(binary.LittleEndian.Uint32(data[len(data)-8:]))
+		if n > 28 && n+8 <= len(data) {
+			stripped := append([]byte{}, data[:len(data)-8-28]...)
+			stripped = binary.LittleEndian.AppendUint32(stripped, uint32(n-28))
+			stripped = append(stripped, "PAR1"...)
+			if _, err := parquet.OpenFile(bytes.NewReader(stripped), int64(len(stripped)), parquet.WithDecryption(ring)); err == nil {
+				return kit.Failf("c18/unsigned-footer-accepted"+feat, "the plaintext footer of the encrypted file was stripped of its signature (28 bytes) and OpenFile with the keys accepted it")
+			}
+			o.Class("signature-stripped")
+		}
+	}
 	o.Class("footer-" + map[bool]string{true: "encrypted", false: "plaintext"}[c.EncFooter])
 	o.ClassIf(len(c.ColKeys) > 0, "column-keys")
 	o.ClassIf(c.Reused, "writer-reused-after-reset")
